@@ -537,13 +537,14 @@ class TestManager:
         self.temporary_folders = {}
         m = Manager()
         self.pid_queue = m.Queue()
-        self.create_root()
         pass_key = repr(self.current_pass)
 
         logging.info(f'===< {self.current_pass} >===')
 
         if self.total_file_size == 0:
             raise ZeroSizeError(self.test_cases)
+
+        self.create_root()
 
         self.pass_statistic.start(self.current_pass)
         if not self.skip_key_off:
